@@ -167,12 +167,14 @@ def run(R):
     quick = R.tier == 'quick'
     R.rule = ('cases = (validator set with real Ed25519 keys and a weight class, signature list built by an operator: honest subsets at / just below / just above '
               'two thirds, duplicates, foreign signer, signature over another block id / without the magic / by the right key for another message, bit-flipped '
-              'signature, signature of the wrong length (0/1/32/63/65/128 bytes), invalid entry first/middle/last, empty; then the same keys with other weights '
+              'signature, signature of the wrong length (0/1/32/63/65/128 bytes), invalid entry first/middle/last, empty; validator set handed over as list / tuple / generator / iterator / map / dict view; block id converted, hashed and shown before the check; then the same keys with other weights '
               'or permuted weights in the next call); expected verdict from an independent predicate (R7: distinct known signers, all signatures '
               'verify with PyNaCl, 3*signed > 2*total, non-empty); distinct = distinct (weights, signer list, operator); non-trivial = at least one signature')
     R.assumptions = ['a signature list that contains a duplicate but whose distinct signers alone exceed 2/3 is not judged (the property can be read either way)',
                      'validator sets with two members sharing one public key are not generated', 'Ed25519 verification by PyNaCl is trusted']
     sizes = [0, 1, 2, 3, 4, 5, 6, 7, 9, 10, 12, 30] + ([] if quick else [60, 99, 100])
+    CALLS = [0]
+    BLK = {}
     rounds = 1 if quick else 6
     ci = 0
     for rnd in range(rounds):
@@ -194,9 +196,22 @@ def run(R):
                     return judge_for(op, sigs, blk)
 
                 def judge_for(op, sigs, the_blk, world=world, nodes=nodes, weights=weights, wname=wname):
-                    want, reason = r7(world, sigs, the_blk.root_hash, the_blk.file_hash)
+                    # the identifier's hashes as they were when the object was first seen here (the object is used between the calls and must not change)
+                    rh, fh = BLK.setdefault(id(the_blk), (the_blk.root_hash, the_blk.file_hash, the_blk))[:2]
+                    want, reason = r7(world, sigs, rh, fh)
                     # validator lists that come out of compute_validator_set are produced anew for every call and handed over as returned (not copied into a list)
                     nodes_arg = world.producer() if getattr(world, 'route', '') == 'compute_validator_set' else list(nodes)
+                    # the validator set is "an iterable of nodes": a list, a tuple, a one-shot generator / iterator / map, the values view of a dict
+                    CALLS[0] += 1
+                    form = CALLS[0] % 7
+                    if isinstance(nodes_arg, list) and form:
+                        lst = nodes_arg
+                        nodes_arg = [tuple(lst), (x for x in lst), iter(lst), map(lambda x: x, lst), {i: x for i, x in enumerate(lst)}.values(), lst][form - 1]
+                        R.cover('validator_set_containers', type(nodes_arg).__name__)
+                    # the block identifier is the caller's object: it may have been shown, hashed, converted or compared before the signatures are checked
+                    if CALLS[0] % 3 == 0:
+                        used = mon.call(lambda: (the_blk.to_dict(), the_blk.to_bytes(), hash(the_blk), repr(the_blk), the_blk == the_blk, BlockIdExt.from_dict(the_blk.to_dict()) == the_blk))
+                        R.cover('block_id_used_before_check', used[0])
                     st, e = mon.call(check_block_signatures, nodes_arg, [dict(s) for s in sigs], the_blk)
                     got = 'accept' if st == 'ok' else 'reject'
                     W = {'n': n, 'weights': [str(w) for w in weights[:20]], 'weight_class': wname, 'operator': op, 'reason': reason,
